@@ -591,9 +591,10 @@ def run(ctx):
             if st_ != "ok":
                 if not isinstance(devs_, PycommError):
                     res.violation(f"foreign-exception:discover:{type(devs_).__name__}", f"discover() with replies {kinds_} raised {devs_!r:.160}", {"kinds": kinds_})
-            elif not isinstance(devs_, list) or sorted(d_.get("serial") for d_ in devs_) != sorted(f"{i_.serial:08x}" for i_ in good):
+            elif not isinstance(devs_, list) or sorted(str(d_.get("serial")) if isinstance(d_, dict) else repr(d_) for d_ in devs_) != sorted(f"{i_.serial:08x}" for i_ in good):
+                # (whatever the list holds - an entry that is no identity dict, or one without a serial, is not one of the good devices)
                 res.violation("discover-lists-a-reply-that-is-not-a-success", f"discover() with replies {kinds_} (serials of the status-0, complete ones: {[f'{i_.serial:08x}' for i_ in good]}) returned "
-                              f"{[d_.get('serial') for d_ in devs_] if isinstance(devs_, list) else devs_!r:.200}", {"kinds": kinds_})
+                              f"{[(d_.get('serial') if isinstance(d_, dict) else d_) for d_ in devs_] if isinstance(devs_, list) else devs_!r:.200}", {"kinds": kinds_})
             b_.close()
     res.sample({"kind": "read1", "forced": "general status 0x05, extended 0x0000", "expect": "falsy Tag whose error names status 0x05"})
     res.sample({"kind": "readfrag", "fault": "reply #2 cut to 30 bytes", "expect": "library exception or falsy Tag, never a foreign exception"})
